@@ -780,6 +780,12 @@ WRONG_FORMS = {
     '2D sequence -> trinterp2 per element': [('self.__class__([trinterp2(x, start, s=s[0]) for x in self.data])', 'start and end pose are exchanged: s = 0 gives the end pose')],
     '3D vector s -> trinterp per s': [('self.__class__([trinterp(self.A, start, s=_s) for _s in s])', 'start and end pose are exchanged: s = 0 gives the end pose')],
     '3D sequence -> trinterp per element': [('self.__class__([trinterp(x, start, s=s[0]) for x in self.data])', 'start and end pose are exchanged: s = 0 gives the end pose')],
+    'rotational twist about x': [('cls([r_[_A, _B, _C, _D, _E, _F] for _X in getunit(getvector(theta), unit)])', 'the twist vector is not [0, 0, 0, theta, 0, 0]'),
+                                 ('cls([r_[0, 0, 0, _X, 0, 0] for _X in _IT])', 'the angles are not getunit(getvector(theta), unit)')],
+    'rotational twist about y': [('cls([r_[_A, _B, _C, _D, _E, _F] for _X in getunit(getvector(theta), unit)])', 'the twist vector is not [0, 0, 0, 0, theta, 0]'),
+                                 ('cls([r_[0, 0, 0, 0, _X, 0] for _X in _IT])', 'the angles are not getunit(getvector(theta), unit)')],
+    'rotational twist about z': [('cls([r_[_A, _B, _C, _D, _E, _F] for _X in getunit(getvector(theta), unit)])', 'the twist vector is not [0, 0, 0, 0, 0, theta]'),
+                                 ('cls([r_[0, 0, 0, 0, 0, _X] for _X in _IT])', 'the angles are not getunit(getvector(theta), unit)')],
     '3D logarithm of every element with the twist option': [('[trlog(x) for x in self.data]', 'the twist option is not passed to trlog: log(twist=True) returns matrices')],
     '2D logarithm of every element with the twist option': [('[trlog2(x) for x in self.data]', 'the twist option is not passed to trlog2: log(twist=True) returns matrices')],
 }
@@ -1862,17 +1868,24 @@ def tables_c20(run):
             if not feasible:
                 continue
             e = canon(cr.fi, _resolve_hooks(prog, c, rightp, _subst_pure(r.value, env)), inline=True)
+            PW = ('_C([_X @ %s.Ad() for _X in %s.data])' % (leftp, rightp), '_C([_X @ %s.Ad().T for _X in %s.data])' % (leftp, rightp),
+                  '_C(%s.A @ %s.Ad())' % (rightp, leftp), '_C(%s.A @ %s.Ad().T)' % (rightp, leftp))
             if any(matches(p_, e) is not None for p_ in PM):
                 verdicts.append(('motion', r))
             elif any(matches(p_, e) is not None for p_ in PF):
                 verdicts.append(('force', r))
+            elif any(matches(p_, e) is not None for p_ in PW):
+                verdicts.append(('rowvec', r))
             else:
                 verdicts.append((None, r))
         if not verdicts:
             run.error('R16: %s.__rmul__ (%s): no value return reachable for this class' % (c.name, g.key))
             continue
         for kind, r in verdicts:
-            if kind is None:
+            if kind == 'rowvec':
+                run.violation(RULE, g.key, label, 'the vector is the LEFT factor of the product with the adjoint (x @ Ad): that applies the transposed '
+                              'matrix -- the motion rule to a force and the force rule to a motion', f=cr.f, node=r)
+            elif kind is None:
                 run.error('R16: %s: %s returns an unrecognised form %s' % (label, g.key, src(r.value, 60)))
             elif (kind == 'motion') == motion:
                 run.holds(RULE, g.key, label, 'Ad @ v' if motion else 'Ad^T @ f', f=cr.f, node=r)
@@ -1962,6 +1975,15 @@ def tables_c20(run):
         run.holds(RULE, cc.f.key, 'form tests on the raw argument', '%d form tests applied to the argument itself' % n, f=cc.f)
     else:
         run.error('R16: SpatialVector.__init__: no form tests found')
+    # a 3-vector argument is the linear / moment part: it is padded with three ZEROS to a 6-vector
+    pads = [x for x in own_walk(cc.f.node) if isinstance(x, ast.Subscript) and matches('r_[%s, _A, _B, _C]' % val, canon(cc.fi, x, inline=False)) is not None]
+    for x in pads:
+        b = matches('r_[%s, _A, _B, _C]' % val, canon(cc.fi, x, inline=False))
+        zeros = all(isinstance(b[k], ast.Constant) and b[k].value == 0 and not isinstance(b[k].value, bool) for k in ('_A', '_B', '_C'))
+        (run.holds if zeros else run.violation)(RULE, cc.f.key, '3-vector padding', 'padded with zeros' if zeros else
+                                                'a 3-vector argument is padded with %s instead of three zeros' % src(x, 40), f=cc.f, node=x)
+    if not pads:
+        run.error('R16: SpatialVector.__init__: no r_[value, 0, 0, 0] padding of the 3-vector form')
 
 
 # =========================================================================== C18 unit twists
@@ -2013,6 +2035,12 @@ def tables_c18(run):
         ('twist:Twist3.Ad', 'adjoint through the exponential', ['self.SE3().Ad()'], 'return'),
         ('pose3d:SE3.Twist3', 'twist of a pose is its logarithm', ['Twist3(self.log(twist=True))'], 'return'),
         ('pose2d:SE2.Twist2', 'twist of a pose is its logarithm', ['Twist2(self.log(twist=True))'], 'return'),
+    ], rule=RULE)
+    # axis twists: Rx / Ry / Rz are the unit rotational twists [0 0 0 | e_i] scaled by the converted angle
+    check_routes(run, [
+        ('twist:Twist3.Rx', 'rotational twist about x', ['cls([r_[0, 0, 0, _X, 0, 0] for _X in getunit(getvector(theta), unit)])'], 'return'),
+        ('twist:Twist3.Ry', 'rotational twist about y', ['cls([r_[0, 0, 0, 0, _X, 0] for _X in getunit(getvector(theta), unit)])'], 'return'),
+        ('twist:Twist3.Rz', 'rotational twist about z', ['cls([r_[0, 0, 0, 0, 0, _X] for _X in getunit(getvector(theta), unit)])'], 'return'),
     ], rule=RULE)
     # exp: trexp(S * theta) for scalar theta, per element for vector theta
     for key, ex, cls in (('twist:Twist3.exp', 'trexp', 'SE3'), ('twist:Twist2.exp', 'trexp2', 'SE2')):
